@@ -32,7 +32,7 @@ STUBS = ["virtual-time event loop (symx/vloop.py) with a symbolic clock",
 ASSUMPTIONS = ["constructor precondition guard_time <= stop_timeout (documented ValueError otherwise)"]
 EXPECT_LABELS = {'all': ['one-result-per-put', 'result-data', 'wait-fifo', 'one-at-a-time', 'guard-separation',
                          'cancel-only-newer', 'newest-completes', 'start-at-once', 'output-walk', 'output-idle',
-                         'stop-data-last', 'no-leftover']}
+                         'stop-data-last', 'no-leftover', 'output-timeline', 'result-time']}
 EXPECT_NOTES = {'all': ['run-cancelled', 'put-discarded', 'arrival-during-guard', 'simultaneous-arrivals', 'run-failed']}
 FLOORS = {'quick': {'paths': 200, 'checks': 2000}, 'thorough': {'paths': 2000, 'checks': 20000}}
 
@@ -213,11 +213,26 @@ def scen_oa(env, mode, with_guard, nput, stop_data, late=False):
         elif k in ('end', 'fail', 'cancelled'):
             active -= 1
     env.check('output-walk', walk_ok, info=lambda: (outs, trace))
+    # ... and it changes at the right instants: +1 when a run starts, -1 when it has finished AND its guard time is over
+    ups = [t for t, _, d in outp.log if d['previous'] is not edzed.UNDEF and d['value'] == d['previous'] + 1]
+    downs = [t for t, _, d in outp.log if d['previous'] is not edzed.UNDEF and d['value'] == d['previous'] - 1]
+    fin_order = [t for k, t, v, _ in trace if k in ('end', 'fail', 'cancelled')]
+    env.check('output-timeline', len(ups) == len(starts) and len(downs) == len(fin_order)
+              and And_(*[eq_(u, t) for u, (t, _) in zip(ups, starts)])
+              and And_(*[eq_(d, tf + gz) for d, tf in zip(downs, fin_order)]),
+              info=lambda: (ups, starts, downs, fin_order, gz))
+    # every result event is sent when its run ends (not after the guard time, not at the stop)
+    for v in values:
+        if len(results.get(v, [])) == 1 and v in fin:
+            env.check('result-time', eq_(results[v][0][0], fin[v][1]), info=lambda: (v, results[v][0][0], fin[v][1]))
     env.check('output-idle', state['output_end'] == 0 and (not outs or outs[-1] == 0), info=lambda: outs)
     # stop: pending work completed, stop_data processed last, nothing left
     if stop_data:
         env.check('stop-data-last', bool(starts) and starts[-1][1] == STOP_VALUE and STOP_VALUE in fin
-                  and fin[STOP_VALUE][0] == 'end' and starts[-1][0] >= state['stop_at'], info=lambda: (starts, fin))
+                  and fin[STOP_VALUE][0] == 'end' and starts[-1][0] >= state['stop_at']
+                  # 'last': its run begins when every other run is over (in start mode too)
+                  and And_(*[starts[-1][0] >= tf for v, (k, tf) in fin.items() if v != STOP_VALUE]),
+                  info=lambda: (starts, fin))
     else:
         env.check('stop-data-last', all(v != STOP_VALUE for v in started))
     if mode != 'cancel':
